@@ -118,6 +118,55 @@ def scrape_tiers(repo):
     return chain
 
 
+def scrape_lexer(repo):
+    """The punctuation and keyword tables of lexer.rs as written in `Lexer::next` /
+    `resolve_identifier`:  (simple, special, keywords) with
+      simple   = [(char, token, [(second char, token), ...])]   ('x' => simple_token / choose_token)
+      special  = [char]            ('x' => { ... } arms handled by code: comments, '..')
+      keywords = [(word, token)]
+    None if the file cannot be read this way."""
+    try:
+        text = open(os.path.join(repo, "src", "lexer.rs")).read()
+    except OSError:
+        return None
+    m = re.search(r"let result = match c \{(.*?)\n                    \};", text, re.S)
+    if not m:
+        return None
+    body = m.group(1)
+    simple, special = [], []
+    seen = set()
+    # arms at the nesting depth of the match: lines starting with exactly 24 blanks
+    arms = re.findall(r"^ {24}('(?:\\.|[^'])'|_) => (.*)$", body, re.M)
+    if not arms or arms[-1][0] != "_":
+        return None
+    for pat, rest in arms[:-1]:
+        ch = pat[1:-1]
+        if len(ch) != 1 or ord(ch) >= 128 or ch in seen:
+            return None
+        seen.add(ch)
+        m1 = re.fullmatch(r"simple_token\(i, Tok::(\w+)\),", rest.strip())
+        m2 = re.fullmatch(r"self\.choose_token\(i, Tok::(\w+), &\[(.*)\]\),", rest.strip())
+        if m1:
+            simple.append((ch, m1.group(1), []))
+        elif m2:
+            alts = re.findall(r"\('(.)', Tok::(\w+)\)", m2.group(2))
+            if len(alts) != m2.group(2).count("Tok::"):
+                return None
+            simple.append((ch, m2.group(1), alts))
+        elif rest.strip().startswith("{"):
+            special.append(ch)
+        else:
+            return None
+    m = re.search(r"fn resolve_identifier.*?match name \{(.*?)\n        \}", text, re.S)
+    if not m:
+        return None
+    kws = re.findall(r'^\s*"(\w+)" => Tok::(\w+),\s*$', m.group(1), re.M)
+    other = [l for l in m.group(1).split("\n") if l.strip() and not re.match(r'^\s*"(\w+)" => Tok::(\w+),\s*$', l)]
+    if len(other) != 1 or other[0].strip() != "_ => Tok::Identifier(name),":
+        return None
+    return simple, special, kws
+
+
 def translate(tables_text, repo):
     pre = b""
     fixed = []
@@ -185,5 +234,19 @@ def translate(tables_text, repo):
             rows.append("(%s, [%s])" % (k, "; ".join(codes)))
         out.append("(* loosest tier first *)")
         out.append("Definition gen_tiers : option (list (tier_kind * list binop)) := Some [\n  %s]." % ";\n  ".join(rows))
+    out.append("")
+    lx = scrape_lexer(repo)
+    out.append("(* lexer.rs: punctuation arms of Lexer::next (character, token, [(second character, token)]), the")
+    out.append("   characters handled by code ('#', '/', '.'), and the keywords of resolve_identifier *)")
+    if lx is None:
+        out.append("Definition gen_lex_simple : option (list (N * string * list (N * string))) := None.")
+        out.append("Definition gen_lex_special : option (list N) := None.")
+        out.append("Definition gen_keywords : option (list (string * string)) := None.")
+    else:
+        simple, special, kws = lx
+        out.append("Definition gen_lex_simple : option (list (N * string * list (N * string))) := Some [\n  %s]." % ";\n  ".join(
+            "(%d, %s, [%s])" % (ord(c), qs(t), "; ".join("(%d, %s)" % (ord(d), qs(t2)) for d, t2 in alts)) for c, t, alts in simple))
+        out.append("Definition gen_lex_special : option (list N) := Some [%s]." % "; ".join(str(ord(c)) for c in special))
+        out.append("Definition gen_keywords : option (list (string * string)) := Some [%s]." % "; ".join("(%s, %s)" % (qs(w), qs(t)) for w, t in kws))
     out.append("")
     return "\n".join(out)
